@@ -107,6 +107,7 @@ def run(chk):
     plan = []
     model_dist = []
     impl_nontrivial = []
+    same_name = []        # distance_to_plane for the feature of one name in two worlds, asked in turn (user-built, definition, user-built)
     normal_pairs = []     # (query on the world with the shortcuts switched off = the definition, same query on the world as built by a user)
     for wi in range(50 if quick else 600):
         rng.seed("%d/c06-1/%d" % (chk.seed, wi))      # every world has its own stream: families do not disturb each other
@@ -149,7 +150,18 @@ def run(chk):
             f["max depth"] = float(round(f["min depth"] + rng.uniform(0.3, 0.8) * total * math.sin(segs[0][1])))
             m0, mx = f["min depth"], f["max depth"]
         slot = cs.add_world(wj)
-        slot_n = cs.add_world(wj, model=False)       # the same world as a user builds it: acceleration shortcuts on
+        wj_n = wj
+        if wi % 6 == 3:
+            # the user-built copy lists another feature first: the feature of the same name sits at another position of its list,
+            # and distance_to_plane is asked for it in both worlds in turn
+            # (a far-away feature of the same type, so that the tag numbering stays the same)
+            import copy as _copy
+            pad = _copy.deepcopy(f)
+            pad["name"] = "pad"
+            pad["coordinates"] = [[c[0] + 5e7, c[1] + 5e7] for c in f["coordinates"]]
+            pad["dip point"] = [f["dip point"][0] + 5e7, f["dip point"][1] + 5e7]
+            wj_n = {"version": "1.1", "features": [pad, f]}
+        slot_n = cs.add_world(wj_n, model=False)       # the same world as a user builds it: acceleration shortcuts on
         lf_ml = cs.worlds[slot][2].line_terms.get("line") if cs.model_ok[slot] else None
         for qi in range(30):
             t = rng.uniform(-0.05, 1.05)
@@ -176,9 +188,14 @@ def run(chk):
             y = P0[1] + t * TL * ty + u * ny
             pos = (x, y, TOP - d)
             pcs = "[" + "; ".join("{pc_len = %s; pc_top = %s; pc_bot = %s}" % (common.ml(L_), common.ml(a_), common.ml(b_)) for (L_, a_, b_) in segs) + "]"
+            dist_n = lambda: cs.raw("dist %d %s %s %s %s line" % (slot_n, fhex(x), fhex(y), fhex(TOP - d), fhex(d)), "let () = out_str \"skip\"",
+                                    {"kind": "dist", "slot": slot_n, "world": wj_n, "pos": [x, y, TOP - d], "depth": d})
+            i_b1 = dist_n() if wj_n is not wj else None
             i_d = cs.raw("dist %d %s %s %s %s line" % (slot, fhex(x), fhex(y), fhex(TOP - d), fhex(d)),
                          "let () = out_planar (planar_distance num %s %s %s)" % (pcs, common.ml(u), common.ml(v)),
                          {"kind": "dist", "slot": slot, "world": wj, "pos": [x, y, TOP - d], "depth": d})
+            if i_b1 is not None:
+                same_name.append((i_b1, i_d, dist_n()))
             i_t = cs.p3(slot, pos, d, [[4, 0, 0], [2, 0, 0]])
             normal_pairs.append((i_t, cs.p3(slot_n, pos, d, [[4, 0, 0], [2, 0, 0]])))
             if lf_ml is not None:
@@ -340,6 +357,15 @@ def run(chk):
     # membership as a user gets it (shortcuts on) must be the membership of the definition (shortcuts off = the model, bit for bit)
     seen_n = set()
     ninside = 0
+    for i_b1, i_a, i_b2 in same_name:
+        if not (impl[i_b1] == impl[i_a] == impl[i_b2]):
+            dsc = cs.describe(i_b2)
+            dsc.update({"first_asked": impl[i_b1], "other_world_with_the_feature_at_another_position": impl[i_a], "asked_again": impl[i_b2],
+                        "probe_lines_in_order": [cs.probe[i_b1], cs.probe[i_a], cs.probe[i_b2]]})
+            viol.append(("distance_to_plane for the feature named 'line' depends on which world was asked before (%s, %s, %s)"
+                         % (impl[i_b1][:40], impl[i_a][:40], impl[i_b2][:40]), dsc))
+            break
+    chk.counters["distance_to_plane asked in turn in two worlds that list the feature at different positions"] = len(same_name)
     for i_def, i_usr in normal_pairs:
         a_, b_ = common.parse_vec(impl[i_def]), common.parse_vec(impl[i_usr])
         if a_ is not None and a_[0] >= 0:
